@@ -7,6 +7,7 @@ import (
 	"fmt"
 	"math/rand"
 	"os"
+	"sort"
 	"strings"
 
 	"github.com/B1NARY-GR0UP/originium"
@@ -152,12 +153,17 @@ func cmdFilt(args []string) int {
 	// filters built by compaction (and rebuilt after it): several overlapping tables, cascades over
 	// three levels, an advanced discard mark; after every step every filter the level manager holds
 	// must admit every entry of its table
-	for ci := 0; ci < 40; ci++ {
+	for ci := 0; ci < 160; ci++ {
 		r := rand.New(rand.NewSource(mix(*seed, 5000+ci)))
 		shape := pick(r, "plain", "at", "binary", "long", "short")
-		keys := filtKeys(r, shape, 4+r.Intn(12))
+		keys := filtKeys(r, shape, 3+r.Intn(pick(r, 3, 12)))
 		dir := scratch("filtc")
-		v := originium.NewVerifLevels(dir, 1+r.Intn(2), 1+r.Intn(2), pick(r, 1, 64, 4096), uint64(r.Intn(12)))
+		// half of the runs with the smallest level geometry: every flush cascades through the levels
+		l0, ratio := 1+r.Intn(2), 1+r.Intn(2)
+		if ci%2 == 0 {
+			l0, ratio = 1, 1
+		}
+		v := originium.NewVerifLevels(dir, l0, ratio, pick(r, 1, 64, 4096), uint64(r.Intn(12)))
 		ts, stored := 0, 0
 		ev := FiltEvent{Ev: "Held", Shape: shape + "/compacted"}
 		check := func() {
@@ -169,7 +175,7 @@ func cmdFilt(args []string) int {
 		}
 		for t := 0; t < 6+r.Intn(8); t++ {
 			var es []types.Entry
-			for _, ki := range r.Perm(len(keys))[:1+r.Intn(len(keys))] {
+			for _, ki := range r.Perm(len(keys))[:1+r.Intn(pick(r, 2, len(keys)))] {
 				ts++
 				e := types.Entry{Key: types.KeyWithTs(keys[ki], uint64(ts)), Value: []byte("x"), Version: int64(ts)}
 				if r.Intn(4) == 0 {
@@ -186,7 +192,7 @@ func cmdFilt(args []string) int {
 			stored += len(es)
 			check()
 			if r.Intn(3) == 0 {
-				v.SetWatermark(uint64(r.Intn(ts + 2)))
+				v.SetWatermark(uint64(pick(r, r.Intn(ts+2), ts)))
 			}
 			v.CheckAndCompact()
 			check()
@@ -200,6 +206,72 @@ func cmdFilt(args []string) int {
 		os.RemoveAll(dir)
 		_ = enc.Encode(ev)
 		n++
+	}
+	// size coincidences: a level-N table with p hot keys in v versions is merged into a level-N+1 table
+	// holding one old version of the hot keys and q cold keys; with the discard mark above everything
+	// the output has p+q entries - as many as the level-N input when q = p*(v-1), as many as the
+	// level-N+1 input always, fewer than their sum. Whatever the counts, the output's filter must
+	// admit every key of the output.
+	for p := 1; p <= 3; p++ {
+		for q := 0; q <= 4; q++ {
+			for vs := 1; vs <= 2; vs++ {
+				r := rand.New(rand.NewSource(mix(*seed, 9000+p*100+q*10+vs)))
+				shape := pick(r, "plain", "at", "binary", "long", "short")
+				keys := filtKeys(r, shape, p+q)
+				sort.Strings(keys)
+				// hot and cold keys interleaved so that the key ranges overlap
+				var hot, cold []string
+				for i, k := range keys {
+					if (i%2 == 0 && len(hot) < p) || len(cold) >= q {
+						hot = append(hot, k)
+					} else {
+						cold = append(cold, k)
+					}
+				}
+				dir := scratch("filtm")
+				v := originium.NewVerifLevels(dir, 1, 1, pick(r, 1, 64, 4096), 0)
+				ev := FiltEvent{Ev: "Held", Shape: fmt.Sprintf("%s/moved-down p=%d q=%d v=%d", shape, p, q, vs)}
+				stored := 0
+				check := func() {
+					ev.Members += stored
+					if d := v.FilterDenied(); len(d) > 0 {
+						ev.Denied += len(d)
+						ev.Example = d[0]
+					}
+				}
+				mk := func(ks []string, ts uint64) []types.Entry {
+					var es []types.Entry
+					for _, k := range ks {
+						es = append(es, types.Entry{Key: types.KeyWithTs(k, ts), Value: []byte("x"), Version: int64(ts)})
+					}
+					sortEntries(es)
+					return es
+				}
+				old := mk(append(append([]string(nil), hot...), cold...), 1)
+				_ = v.Flush(old)
+				stored += len(old)
+				v.CompactL0()
+				v.CompactLN(1) // the old table moves down to level 2
+				check()
+				for i := 0; i < vs; i++ {
+					es := mk(hot, uint64(5+i))
+					_ = v.Flush(es)
+					stored += len(es)
+				}
+				v.CompactL0() // level 1: the hot keys in vs versions
+				check()
+				v.SetWatermark(uint64(5 + vs))
+				v.CompactLN(1) // merged into the level-2 table, stale versions discarded
+				check()
+				v.Recover()
+				check()
+				ev.N = stored
+				v.Stop()
+				os.RemoveAll(dir)
+				_ = enc.Encode(ev)
+				n++
+			}
+		}
 	}
 	bw.Flush()
 	f.Close()
